@@ -1,0 +1,153 @@
+// Copyright © 2022-2026 Obol Labs Inc. Licensed under the terms of a Business Source License 1.1
+
+//go:build verif
+
+// Verification contracts (comments only; read by /verif/govc, never compiled into charon).
+package dutydb
+
+//@ pure core.UnsignedData.Clone
+
+//@ spec func nlwPro(qs []proQuery, m map[uint64]*eth2api.VersionedProposal) bool = forall(i, 0, len(qs), !has(m, qs[i].Key))
+//@ spec func nlwAtt(qs []attQuery, m map[attKey]*eth2p0.AttestationData) bool = forall(i, 0, len(qs), !has(m, qs[i].Key))
+//@ spec func nlwAgg(qs []aggQuery, m map[aggKey]core.VersionedAggregatedAttestation) bool = forall(i, 0, len(qs), !has(m, qs[i].Key))
+//@ spec func nlwContrib(qs []contribQuery, m map[contribKey]*altair.SyncCommitteeContribution) bool = forall(i, 0, len(qs), !has(m, qs[i].Key))
+
+//@ func (db *MemDB) resolveProQueriesUnsafe
+//@ props C06
+//@ assigns db.proQueries
+//@ callreq send query.Response: has(db.proDuties, query.Key) && a1 == db.proDuties[query.Key]
+//@ ensures nlwPro(db.proQueries, db.proDuties)
+//@ ensures forall(i, 0, len(db.proQueries), exists(j, 0, len(old(db.proQueries)), old(db.proQueries)[j] == db.proQueries[i]))
+//@ ensures ncalls("send query.Response") + len(db.proQueries) <= len(old(db.proQueries))
+//@ loop 1 invariant forall(i, 0, len(unresolved), !has(db.proDuties, unresolved[i].Key) && exists(j, 0, $i, db.proQueries[j] == unresolved[i]))
+//@ loop 1 invariant ncalls("send query.Response") + len(unresolved) <= $i
+
+//@ func (db *MemDB) resolveAttQueriesUnsafe
+//@ props C06
+//@ assigns db.attQueries
+//@ callreq send query.Response: has(db.attDuties, query.Key) && a1 == db.attDuties[query.Key]
+//@ ensures nlwAtt(db.attQueries, db.attDuties)
+//@ ensures forall(i, 0, len(db.attQueries), exists(j, 0, len(old(db.attQueries)), old(db.attQueries)[j] == db.attQueries[i]))
+//@ ensures ncalls("send query.Response") + len(db.attQueries) <= len(old(db.attQueries))
+//@ loop 1 invariant forall(i, 0, len(unresolved), !has(db.attDuties, unresolved[i].Key) && exists(j, 0, $i, db.attQueries[j] == unresolved[i]))
+//@ loop 1 invariant ncalls("send query.Response") + len(unresolved) <= $i
+
+//@ func (db *MemDB) resolveAggQueriesUnsafe
+//@ props C06
+//@ assigns db.aggQueries
+//@ callreq send query.Response: has(db.aggDuties, query.Key) && a1 == db.aggDuties[query.Key]
+//@ ensures nlwAgg(db.aggQueries, db.aggDuties)
+//@ ensures forall(i, 0, len(db.aggQueries), exists(j, 0, len(old(db.aggQueries)), old(db.aggQueries)[j] == db.aggQueries[i]))
+//@ ensures ncalls("send query.Response") + len(db.aggQueries) <= len(old(db.aggQueries))
+//@ loop 1 invariant forall(i, 0, len(unresolved), !has(db.aggDuties, unresolved[i].Key) && exists(j, 0, $i, db.aggQueries[j] == unresolved[i]))
+//@ loop 1 invariant ncalls("send query.Response") + len(unresolved) <= $i
+
+//@ func (db *MemDB) resolveContribQueriesUnsafe
+//@ props C06
+//@ assigns db.contribQueries
+//@ callreq send query.Response: has(db.contribDuties, query.Key) && a1 == db.contribDuties[query.Key]
+//@ ensures nlwContrib(db.contribQueries, db.contribDuties)
+//@ ensures forall(i, 0, len(db.contribQueries), exists(j, 0, len(old(db.contribQueries)), old(db.contribQueries)[j] == db.contribQueries[i]))
+//@ ensures ncalls("send query.Response") + len(db.contribQueries) <= len(old(db.contribQueries))
+//@ loop 1 invariant forall(i, 0, len(unresolved), !has(db.contribDuties, unresolved[i].Key) && exists(j, 0, $i, db.contribQueries[j] == unresolved[i]))
+//@ loop 1 invariant ncalls("send query.Response") + len(unresolved) <= $i
+
+//@ func (db *MemDB) deleteDutyUnsafe
+//@ props C06
+//@ assigns db.proDuties, db.attDuties, db.attPubKeys, db.attKeysBySlot, db.aggDuties, db.aggKeysBySlot, db.contribDuties, db.contribKeysBySlot
+//@ ensures forallk(k, db.proDuties, has(old(db.proDuties), k) && db.proDuties[k] == old(db.proDuties)[k])
+//@ ensures forallk(k, db.attDuties, has(old(db.attDuties), k) && db.attDuties[k] == old(db.attDuties)[k])
+//@ ensures forallk(k, db.aggDuties, has(old(db.aggDuties), k) && db.aggDuties[k] == old(db.aggDuties)[k])
+//@ ensures forallk(k, db.contribDuties, has(old(db.contribDuties), k) && db.contribDuties[k] == old(db.contribDuties)[k])
+//@ ensures forallk(k, db.attPubKeys, has(old(db.attPubKeys), k) && db.attPubKeys[k] == old(db.attPubKeys)[k])
+//@ loop 1 invariant forallk(k, db.attDuties, has(old(db.attDuties), k) && db.attDuties[k] == old(db.attDuties)[k])
+//@ loop 1 invariant forallk(k, db.attPubKeys, has(old(db.attPubKeys), k) && db.attPubKeys[k] == old(db.attPubKeys)[k])
+//@ loop 1 invariant db.proDuties == old(db.proDuties) && db.aggDuties == old(db.aggDuties) && db.contribDuties == old(db.contribDuties)
+//@ loop 2 invariant forallk(k, db.aggDuties, has(old(db.aggDuties), k) && db.aggDuties[k] == old(db.aggDuties)[k])
+//@ loop 2 invariant db.proDuties == old(db.proDuties) && db.attDuties == old(db.attDuties) && db.contribDuties == old(db.contribDuties) && db.attPubKeys == old(db.attPubKeys)
+//@ loop 3 invariant forallk(k, db.contribDuties, has(old(db.contribDuties), k) && db.contribDuties[k] == old(db.contribDuties)[k])
+//@ loop 3 invariant db.proDuties == old(db.proDuties) && db.attDuties == old(db.attDuties) && db.aggDuties == old(db.aggDuties) && db.attPubKeys == old(db.attPubKeys)
+
+//@ func (db *MemDB) storeProposalUnsafe
+//@ props C06 C01
+//@ assigns db.proDuties
+//@ ensures forallk(s, old(db.proDuties), has(db.proDuties, s) && db.proDuties[s] == old(db.proDuties)[s])
+//@ ensures result != nil ==> db.proDuties == old(db.proDuties)
+//@ canary result != nil
+
+//@ func (db *MemDB) storeAttestationUnsafe
+//@ props C06 C01
+//@ assigns db.attDuties, db.attPubKeys, db.attKeysBySlot
+//@ ensures forallk(k, old(db.attDuties), has(db.attDuties, k) && db.attDuties[k] == old(db.attDuties)[k])
+//@ ensures forallk(k, old(db.attPubKeys), has(db.attPubKeys, k) && db.attPubKeys[k] == old(db.attPubKeys)[k])
+//@ canary result != nil
+
+//@ func (db *MemDB) storeSyncContributionEntryUnsafe
+//@ props C06 C01
+//@ assigns db.contribDuties, db.contribKeysBySlot
+//@ ensures forallk(k, old(db.contribDuties), has(db.contribDuties, k) && db.contribDuties[k] == old(db.contribDuties)[k])
+//@ ensures result != nil ==> db.contribDuties == old(db.contribDuties)
+//@ canary result != nil
+
+//@ func (db *MemDB) storeSyncContributionUnsafe
+//@ props C06 C01
+//@ assigns db.contribDuties, db.contribKeysBySlot
+//@ ensures forallk(k, old(db.contribDuties), has(db.contribDuties, k) && db.contribDuties[k] == old(db.contribDuties)[k])
+//@ loop 1 invariant forallk(k, old(db.contribDuties), has(db.contribDuties, k) && db.contribDuties[k] == old(db.contribDuties)[k])
+
+//@ func (db *MemDB) storeAggAttestationUnsafe
+//@ props C06 C01
+//@ assigns db.aggDuties, db.aggKeysBySlot
+//@ ensures forallk(k, old(db.aggDuties), has(db.aggDuties, k))
+//@ ensures forallk(k, old(db.aggDuties), db.aggDuties[k] == old(db.aggDuties)[k])
+//@ ensures result != nil ==> db.aggDuties == old(db.aggDuties)
+//@ ensures result == nil ==> forallk(k, old(db.aggDuties), k != key ==> db.aggDuties[k] == old(db.aggDuties)[k])
+//@ canary result != nil
+
+//@ func (db *MemDB) Store
+//@ props C06 C01
+//@ ensures result == nil && duty.Type == core.DutyProposer ==> nlwPro(db.proQueries, db.proDuties)
+//@ ensures result == nil && duty.Type == core.DutyAttester ==> nlwAtt(db.attQueries, db.attDuties)
+//@ ensures result == nil && duty.Type == core.DutyAggregator ==> nlwAgg(db.aggQueries, db.aggDuties)
+//@ ensures result == nil && duty.Type == core.DutySyncContribution ==> nlwContrib(db.contribQueries, db.contribDuties)
+//@ ensures result == nil ==> duty.Type == core.DutyProposer || duty.Type == core.DutyAttester || duty.Type == core.DutyAggregator || duty.Type == core.DutySyncContribution
+//@ ensures status == core.DeadlineExpired || status == core.DeadlineExempt ==> result != nil && db.proDuties == old(db.proDuties) && db.attDuties == old(db.attDuties) && db.aggDuties == old(db.aggDuties) && db.contribDuties == old(db.contribDuties) && db.attPubKeys == old(db.attPubKeys)
+//@ ensures forallk(k, old(db.proDuties), has(db.proDuties, k) ==> db.proDuties[k] == old(db.proDuties)[k])
+//@ ensures forallk(k, old(db.attDuties), has(db.attDuties, k) ==> db.attDuties[k] == old(db.attDuties)[k])
+//@ ensures forallk(k, old(db.contribDuties), has(db.contribDuties, k) ==> db.contribDuties[k] == old(db.contribDuties)[k])
+//@ canary result != nil
+//@ loop 1 invariant forallk(k, old(db.proDuties), has(db.proDuties, k) && db.proDuties[k] == old(db.proDuties)[k])
+//@ loop 1 invariant db.attDuties == old(db.attDuties) && db.contribDuties == old(db.contribDuties)
+//@ loop 2 invariant forallk(k, old(db.attDuties), has(db.attDuties, k) && db.attDuties[k] == old(db.attDuties)[k])
+//@ loop 2 invariant db.proDuties == old(db.proDuties) && db.contribDuties == old(db.contribDuties)
+//@ loop 3 invariant db.proDuties == old(db.proDuties) && db.attDuties == old(db.attDuties) && db.contribDuties == old(db.contribDuties)
+//@ loop 4 invariant forallk(k, old(db.contribDuties), has(db.contribDuties, k) && db.contribDuties[k] == old(db.contribDuties)[k])
+//@ loop 4 invariant db.proDuties == old(db.proDuties) && db.attDuties == old(db.attDuties)
+//@ loop 5 invariant duty.Type == core.DutyProposer ==> nlwPro(db.proQueries, db.proDuties)
+//@ loop 5 invariant duty.Type == core.DutyAttester ==> nlwAtt(db.attQueries, db.attDuties)
+//@ loop 5 invariant duty.Type == core.DutyAggregator ==> nlwAgg(db.aggQueries, db.aggDuties)
+//@ loop 5 invariant duty.Type == core.DutySyncContribution ==> nlwContrib(db.contribQueries, db.contribDuties)
+//@ loop 5 invariant duty.Type == core.DutyProposer || duty.Type == core.DutyAttester || duty.Type == core.DutyAggregator || duty.Type == core.DutySyncContribution
+//@ loop 5 invariant forallk(k, old(db.proDuties), has(db.proDuties, k) ==> db.proDuties[k] == old(db.proDuties)[k])
+//@ loop 5 invariant forallk(k, old(db.attDuties), has(db.attDuties, k) ==> db.attDuties[k] == old(db.attDuties)[k])
+//@ loop 5 invariant forallk(k, old(db.contribDuties), has(db.contribDuties, k) ==> db.contribDuties[k] == old(db.contribDuties)[k])
+
+//@ func (db *MemDB) AwaitProposal
+//@ props C06
+//@ callreq db.resolveProQueriesUnsafe: len(db.proQueries) >= 1 && db.proQueries[len(db.proQueries)-1].Key == slot && db.proQueries[len(db.proQueries)-1].Response == response && db.proQueries[len(db.proQueries)-1].Cancel == cancel
+//@ ensures ncalls(db.resolveProQueriesUnsafe) == 1
+
+//@ func (db *MemDB) AwaitAttestation
+//@ props C06
+//@ callreq db.resolveAttQueriesUnsafe: len(db.attQueries) >= 1 && db.attQueries[len(db.attQueries)-1].Key == attKey{Slot: slot, CommIdx: commIdx} && db.attQueries[len(db.attQueries)-1].Response == response && db.attQueries[len(db.attQueries)-1].Cancel == cancel
+//@ ensures ncalls(db.resolveAttQueriesUnsafe) == 1
+
+//@ func (db *MemDB) AwaitAggAttestation
+//@ props C06
+//@ callreq db.resolveAggQueriesUnsafe: len(db.aggQueries) >= 1 && db.aggQueries[len(db.aggQueries)-1].Key == aggKey{Slot: slot, Root: attestationRoot, CommitteeIndex: committeeIndex} && db.aggQueries[len(db.aggQueries)-1].Response == response && db.aggQueries[len(db.aggQueries)-1].Cancel == cancel
+//@ ensures ncalls(db.resolveAggQueriesUnsafe) == 1
+
+//@ func (db *MemDB) AwaitSyncContribution
+//@ props C06
+//@ callreq db.resolveContribQueriesUnsafe: len(db.contribQueries) >= 1 && db.contribQueries[len(db.contribQueries)-1].Key == contribKey{Slot: slot, SubcommIdx: subcommIdx, Root: beaconBlockRoot} && db.contribQueries[len(db.contribQueries)-1].Response == response && db.contribQueries[len(db.contribQueries)-1].Cancel == cancel
+//@ ensures ncalls(db.resolveContribQueriesUnsafe) == 1
